@@ -46,7 +46,7 @@ def rule_pubpoint_refresh(ctx):
             why = 'min(current, %s)' % (m.group(2)[:60] if m else '?')
         ctx.check(ok, 'K13', 'PubPoint.refresh<-%s' % root, why,
                   'PubPoint.refresh is assigned `%s` in %s: the deadline must only ever be lowered (min with the current value)' % (d[:120], root), loc=site.loc())
-    ctx.floor('K13', 'assignments to PubPoint.refresh', n, 3)
+    ctx.floor('K13', 'assignments to PubPoint.refresh', n, 2)
     nb = ctx.body('payload::validation::PubPoint::new')
     from lib.rules import agg_sites
     for l in agg_sites(nb, PP):
@@ -70,7 +70,9 @@ def rule_pubpoint_refresh(ctx):
                   'the parent\'s manifest and CRL deadlines) and its own certificate\'s notAfter' % d, loc=s.loc())
         ctx.sample(dict(new_ca_refresh=d))
     ur = ctx.body('payload::validation::PubPoint::update_refresh')
-    ctx.check(any(arg_desc(s, 0) == 'self.refresh' and arg_desc(s, 1) == 'refresh' for s in ur.calls('cmp::min')), 'K13', 'update_refresh=min', 'update_refresh is min(self.refresh, x)', 'update_refresh changed')
+    params = [d['name'] for d in ur.rec.get('debug', []) if d.get('arg') and d['name'] != 'self']
+    ctx.check(any({arg_desc(s, 0), arg_desc(s, 1)} == {'self.refresh', params[0] if params else '?'} for s in ur.calls('cmp::min')),
+              'K13', 'update_refresh=min', 'update_refresh is min(self.refresh, x)', 'update_refresh changed')
 
 
 def rule_builder(ctx):
@@ -124,12 +126,39 @@ def rule_pairing(ctx):
             p = b.path_avoiding(ret.bb, avoid_nodes=[u.bb for u in ups], start=tb)
             ctx.check(p is None, 'pair', 'process_roa:added=>update_refresh', 'every path after a successful add_roa updates the deadline', 'a path after add_roa==true skips update_refresh')
     pv = ctx.body(pre + 'point_validity')
-    ok = False
+    folded = set()
+    lowering_only = True
+
+    def min_leaves(d):
+        m = re.match(r'^call:cmp::min\((.*)\)$', d)
+        if not m:
+            return [d]
+        depth, cur, parts = 0, '', []
+        for ch in m.group(1):
+            if ch == ',' and depth == 0:
+                parts.append(cur)
+                cur = ''
+                continue
+            depth += ch == '('
+            depth -= ch == ')'
+            cur += ch
+        parts.append(cur)
+        return [x for p_ in parts for x in min_leaves(p_)]
     for site, how, adt, f, place in field_writes(pv):
         if f == 'refresh' and how == 'assign':
             d = describe(pv.origin_of_operand(site.stmt['rv']['o']))
-            ok = bool(re.match(r'^call:cmp::min\(self\.pub_point\.refresh,call:cmp::min\(call:Validity::not_after\(manifest\),stale\)\)$', d))
-            ctx.check(ok, 'K13', 'point_validity:fold', 'refresh = min(refresh, min(manifest.not_after, stale))', 'point_validity assigns %s' % d, loc=site.loc())
+            lv = min_leaves(d)
+            good = d.startswith('call:cmp::min(') and 'self.pub_point.refresh' in lv
+            lowering_only = lowering_only and good
+            ctx.check(good, 'K13', 'point_validity:fold', 'refresh = min(refresh, ..)', 'point_validity assigns %s' % d, loc=site.loc())
+            folded |= set(lv) - {'self.pub_point.refresh'}
+    for u in pv.calls('payload::validation::PubPoint::update_refresh'):
+        if arg_desc(u, 0).endswith('self.pub_point'):
+            folded.add(arg_desc(u, 1))
+    ok = lowering_only and {'call:Validity::not_after(manifest)', 'stale'} <= folded
+    if not ok:
+        ctx.bad('K13', 'point_validity:folds-manifest-expiry-and-stale-time', 'point_validity folds %s into the deadline: it must lower it to the '
+                'manifest certificate\'s notAfter and to the stale time of manifest/CRL' % sorted(folded), loc='%s:%d' % (pv.file, pv.line))
     ctx.check(ok, 'K13', 'point_validity:writes-refresh', 'point_validity lowers the deadline', 'point_validity does not touch refresh')
     ev = ctx.body('engine::ValidPointManifest::point_validity')
     for s in ev.calls('engine::ProcessPubPoint::point_validity'):
